@@ -92,6 +92,8 @@ func canonSite(e rapid.VerifError) (string, int) {
 			return "CRC", id
 		case strings.Contains(second, "rapid.checkOnce"):
 			return "CTop", 0
+		case strings.Contains(second, "maybeValue"):
+			return "CCF", 0
 		}
 		return "CUnknown", id
 	}
